@@ -779,3 +779,615 @@ Section Sim.
     rewrite Hv, den_expected by assumption. rewrite Hqi, Hqj, Ei, Ej. reflexivity.
   Qed.
 End Sim.
+
+(* ------------------------------------------------------------------------------------------ *)
+(** * The integer skeleton: closer(), the mult-doubling loop, the split points *)
+Definition closer (a cutoff : nat) : bool := (3 * a <? 4 * cutoff) || (a <? 2 * 64).
+Definition split_pt (x mult : nat) : nat := (x - x mod mult) / 64 / 2 ^ 1 * 64.
+
+Lemma split_pt_le x mult : 2 * split_pt x mult <= x.
+Proof. unfold split_pt. change (2 ^ 1) with 2. lia. Qed.
+
+Lemma split_pt_pos x mult : 64 <= mult -> (mult = 64 \/ 128 <= mult) -> mult <= x -> 128 <= x ->
+  64 <= split_pt x mult.
+Proof.
+  intros H64 Hm Hx H128. unfold split_pt. change (2 ^ 1) with 2.
+  assert (Hy : 128 <= x - x mod mult).
+  { destruct Hm as [->|Hm]; [lia|].
+    assert (mult <= x - x mod mult); [|lia].
+    pose proof (Nat.div_mod x mult ltac:(lia)) as Hd.
+    assert (0 < x / mult) by (apply Nat.div_str_pos; lia).
+    replace (x - x mod mult) with (mult * (x / mult)) by lia.
+    rewrite <- (Nat.mul_1_r mult) at 1. apply Nat.mul_le_mono_l. lia. }
+  lia.
+Qed.
+
+Section Loop.
+  Variable F : fenv.
+  Variables cutoff w0 : nat.
+  Hypothesis Hcut : 63 <= cutoff.
+
+  Definition loop_inv (E : env) : Prop :=
+    E Vcutoff = cutoff /\ 64 <= E Vmult /\ (E Vmult = 64 \/ 128 <= E Vmult) /\
+    E Vmult * E Vwidth <= 64 * w0 /\ (E Vmult = 64 \/ E Vmult <= 2 * w0).
+
+  Lemma loop_spec fuel : forall E, loop_inv E -> E Vwidth < 2 ^ fuel ->
+    exists E2, loop_run (S fuel) E F (fst canon_loop) (snd canon_loop) = Some E2 /\
+      (forall v, v <> Vwidth -> v <> Vmult -> E2 v = E v) /\ loop_inv E2.
+  Proof.
+    induction fuel as [|fuel IH]; intros E Hinv Hw.
+    - cbn [loop_run canon_loop fst snd beval aeval]. cbn in Hw.
+      destruct (Nat.ltb_spec (E Vcutoff) (E Vwidth)); [lia|]. eauto.
+    - cbn [loop_run canon_loop fst snd beval aeval].
+      destruct (Nat.ltb_spec (E Vcutoff) (E Vwidth)) as [Hgt|Hle]; [|eauto].
+      set (E' := assigns E F [(Vwidth, ADiv (AVar Vwidth) (ANum 2)); (Vmult, AMul (AVar Vmult) (ANum 2))]).
+      assert (Hw' : E' Vwidth = E Vwidth / 2) by reflexivity.
+      assert (Hm' : E' Vmult = E Vmult * 2) by reflexivity.
+      assert (Ho : forall v, v <> Vwidth -> v <> Vmult -> E' v = E v).
+      { intros v H1 H2. unfold E'. cbn [assigns aeval]. unfold eupd.
+        destruct (var_beq v Vmult) eqn:B1; [apply var_beq_eq in B1; contradiction|].
+        destruct (var_beq v Vwidth) eqn:B2; [apply var_beq_eq in B2; contradiction|]. reflexivity. }
+      destruct Hinv as (Hc & H64 & Hm & Hp & Hb).
+      destruct (IH E') as (E2 & Hr & Ho2 & Hinv2).
+      + unfold loop_inv. rewrite Hw', Hm', (Ho Vcutoff) by discriminate.
+        assert (Hq : 2 * (E Vwidth / 2) <= E Vwidth) by lia.
+        assert (H64w : 64 <= E Vwidth) by lia.
+        clear Hw' Hm' IH Ho E'.
+        remember (E Vwidth / 2) as q eqn:Eq1. remember (E Vwidth) as wd eqn:Eq2.
+        remember (E Vmult) as mu eqn:Eq3. clear Eq1 Eq2 Eq3.
+        repeat split; try lia; try nia.
+      + rewrite Hw'. cbn [Nat.pow] in Hw. lia.
+      + exists E2. split; [exact Hr|]. split; [|exact Hinv2].
+        intros v H1 H2. rewrite Ho2, Ho by assumption. reflexivity.
+  Qed.
+End Loop.
+
+(* ------------------------------------------------------------------------------------------ *)
+(** * The remainder strips *)
+Definition base_correct (base : mat -> mat -> mat -> bool -> res mat) : Prop :=
+  forall C A B clr, wf C -> wf A -> wf B -> nc A = nr B -> nr C = nr A -> nc C = nc B ->
+    0 < nr A -> 0 < nc A -> 0 < nc B ->
+    base C A B clr = Ok (if clr then mmul A B else madd C (mmul A B)).
+
+Definition sop_acc (op : sop) : bool := match op with SAddW => true | _ => false end.
+
+Section Strips.
+  Variable base : mat -> mat -> mat -> bool -> res mat.
+  Hypothesis base_ok : base_correct base.
+
+  Definition sop_run (op : sop) (vd vx vy : mat) : res mat :=
+    match op with
+    | SClear => base vd vx vy true
+    | SMulW => mul_m4rm base vd vx vy
+    | SAddW => addmul_m4rm base vd vx vy
+    end.
+  Definition dostrip (op : sop) (C : mat) (r0 c0 r c : nat) (VX VY : mat) : res mat :=
+    v <- sop_run op (msub C r0 c0 r c) VX VY ;; Ok (mpaste C r0 c0 v).
+
+  Lemma sop_run_ok op vd vx vy : wf vd -> wf vx -> wf vy -> nc vx = nr vy -> nr vd = nr vx ->
+    nc vd = nc vy -> 0 < nr vx -> 0 < nc vx -> 0 < nc vy ->
+    sop_run op vd vx vy = Ok (if sop_acc op then madd vd (mmul vx vy) else mmul vx vy).
+  Proof.
+    intros. destruct op; cbn [sop_run sop_acc].
+    - now rewrite base_ok.
+    - unfold mul_m4rm.
+      destruct (Nat.eqb_spec (nc vx) (nr vy)); [|contradiction]. cbn [negb].
+      destruct (Nat.eqb_spec (nr vd) (nr vx)); [|contradiction].
+      destruct (Nat.eqb_spec (nc vd) (nc vy)); [|contradiction]. cbn [andb negb].
+      now rewrite base_ok.
+    - unfold addmul_m4rm.
+      destruct (Nat.eqb_spec (nc vd) 0); [lia|]. destruct (Nat.eqb_spec (nr vd) 0); [lia|]. cbn [orb].
+      destruct (Nat.eqb_spec (nc vx) (nr vy)); [|contradiction]. cbn [negb].
+      destruct (Nat.eqb_spec (nr vd) (nr vx)); [|contradiction].
+      destruct (Nat.eqb_spec (nc vd) (nc vy)); [|contradiction]. cbn [andb negb].
+      now rewrite base_ok.
+  Qed.
+
+  Definition inrect (r0 c0 r c i j : nat) : bool :=
+    (r0 <=? i) && (i <? r0 + r) && (c0 <=? j) && (j <? c0 + c).
+
+  (** an optional strip product: get-level description of the result *)
+  Lemma opt_strip (g : bool) op C r0 c0 r c VX VY kk : wf C -> wf VX -> wf VY ->
+    r0 + r <= nr C -> c0 + c <= nc C -> nr VX = r -> nc VX = kk -> nr VY = kk -> nc VY = c ->
+    (g = true -> 0 < r /\ 0 < c /\ 0 < kk) ->
+    exists C', (if g then dostrip op C r0 c0 r c VX VY else Ok C) = Ok C' /\
+      wf C' /\ nr C' = nr C /\ nc C' = nc C /\
+      forall i j, get C' i j =
+        if g && inrect r0 c0 r c i j
+        then xorb (sop_acc op && get C i j) (xsum kk (fun t => get VX (i - r0) t && get VY t (j - c0)))
+        else get C i j.
+  Proof.
+    intros HC HX HY Hr Hc E1 E2 E3 E4 Hpos. destruct g; [|exists C; auto].
+    destruct (Hpos eq_refl) as (P1 & P2 & P3).
+    assert (HS : wf (msub C r0 c0 r c)) by (apply wf_msub; rewrite wf_len; auto).
+    unfold dostrip. rewrite sop_run_ok; auto; try (cbn [nr nc msub]; lia).
+    cbn [bind]. eexists. split; [reflexivity|].
+    set (V := if sop_acc op then madd (msub C r0 c0 r c) (mmul VX VY) else mmul VX VY).
+    assert (HV : wf V /\ nr V = r /\ nc V = c).
+    { unfold V. destruct (sop_acc op); (split; [|cbn [nr nc madd mmul msub]; split; auto]).
+      - apply wf_madd; auto using wf_mmul; cbn [nr nc msub mmul]; lia.
+      - apply wf_mmul; auto. }
+    destruct HV as (HV & HVr & HVc).
+    split; [apply wf_mpaste; auto; lia|]. split; [reflexivity|]. split; [reflexivity|].
+    intros i j. rewrite get_mpaste by (auto; rewrite wf_len by auto; lia).
+    rewrite HVr, HVc. unfold inrect. cbn [andb].
+    destruct ((r0 <=? i) && (i <? r0 + r) && (c0 <=? j) && (j <? c0 + c)) eqn:Hin; [|reflexivity].
+    rewrite !andb_true_iff in Hin. destruct Hin as [[[I1 I2] I3] I4].
+    apply Nat.leb_le in I1, I3. apply Nat.ltb_lt in I2, I4.
+    unfold V. destruct (sop_acc op); cbn [andb].
+    - rewrite get_madd by (cbn [rows msub mmul]; rewrite !map_length, firstn_length, skipn_length, !wf_len by auto; lia).
+      rewrite get_msub by (rewrite wf_len by auto; lia).
+      destruct (Nat.ltb_spec (i - r0) r), (Nat.ltb_spec (j - c0) c); try lia. cbn [andb].
+      replace (r0 + (i - r0)) with i by lia. replace (c0 + (j - c0)) with j by lia.
+      rewrite get_mmul by assumption. now rewrite E3.
+    - rewrite xorb_false_l. rewrite get_mmul by assumption. now rewrite E3.
+  Qed.
+
+  Lemma three_strips (op : sop) A Bm C0 C1 m kk n m2 k2 n2 :
+    wf A -> nr A = m -> nc A = kk -> wf Bm -> nr Bm = kk -> nc Bm = n ->
+    wf C1 -> nr C1 = m -> nc C1 = n ->
+    m2 <= m -> k2 <= kk -> n2 <= n -> 0 < m2 -> 0 < k2 -> 0 < n2 ->
+    (forall i j, ~ (i < m2 /\ j < n2) -> get C1 i j = get C0 i j) ->
+    (forall i j, i < m2 -> j < n2 ->
+        get C1 i j = xorb (sop_acc op && get C0 i j) (xsum k2 (fun t => get A i t && get Bm t j))) ->
+    exists R,
+      (s1 <- (if n2 <? n then dostrip op C1 0 n2 m (n - n2) A (msub Bm 0 n2 kk (n - n2)) else Ok C1) ;;
+       s2 <- (if m2 <? m then dostrip op s1 m2 0 (m - m2) n2 (msub A m2 0 (m - m2) kk) (msub Bm 0 0 kk n2)
+              else Ok s1) ;;
+       (if k2 <? kk then dostrip SAddW s2 0 0 m2 n2 (msub A 0 k2 m2 (kk - k2)) (msub Bm k2 0 (kk - k2) n2)
+        else Ok s2)) = Ok R /\
+      wf R /\ nr R = m /\ nc R = n /\
+      forall i j, i < m -> j < n ->
+        get R i j = xorb (sop_acc op && get C0 i j) (xsum kk (fun t => get A i t && get Bm t j)).
+  Proof.
+    intros HA Am Ak HB Bk Bn HC Cm Cn Lm Lk Ln Pm Pk Pn Hout Hin.
+    pose proof (wf_len A HA) as LA. pose proof (wf_len Bm HB) as LB.
+    destruct (opt_strip (n2 <? n) op C1 0 n2 m (n - n2) A (msub Bm 0 n2 kk (n - n2)) kk)
+      as (s1 & R1 & W1 & N1 & M1 & G1); auto; try (apply wf_msub; lia); try (cbn [nr nc msub]; lia).
+    rewrite R1. cbn [bind].
+    destruct (opt_strip (m2 <? m) op s1 m2 0 (m - m2) n2 (msub A m2 0 (m - m2) kk) (msub Bm 0 0 kk n2) kk)
+      as (s2 & R2 & W2 & N2 & M2 & G2); auto; try (apply wf_msub; lia); try (cbn [nr nc msub]; lia).
+    rewrite R2. cbn [bind].
+    destruct (opt_strip (k2 <? kk) SAddW s2 0 0 m2 n2 (msub A 0 k2 m2 (kk - k2)) (msub Bm k2 0 (kk - k2) n2) (kk - k2))
+      as (s3 & R3 & W3 & N3 & M3 & G3); auto; try (apply wf_msub; lia); try (cbn [nr nc msub]; lia).
+    rewrite R3. exists s3. split; [reflexivity|]. split; [exact W3|].
+    split; [lia|]. split; [lia|].
+    intros i j Hi Hj. rewrite G3, G2, G1. unfold inrect. cbn [sop_acc andb].
+    destruct (Nat.ltb_spec j n2) as [Hjn|Hjn].
+    - destruct (Nat.ltb_spec i m2) as [Him|Him].
+      + (* block region *)
+        replace ((0 <=? i) && (i <? 0 + m2) && (0 <=? j) && (j <? 0 + n2)) with true
+          by (symmetry; rewrite !andb_true_iff, !Nat.leb_le, !Nat.ltb_lt; lia).
+        replace ((m2 <=? i) && (i <? m2 + (m - m2)) && (0 <=? j) && (j <? 0 + n2)) with false
+          by (symmetry; destruct (Nat.leb_spec m2 i); [lia|reflexivity]).
+        replace ((0 <=? i) && (i <? 0 + m) && (n2 <=? j) && (j <? n2 + (n - n2))) with false
+          by (symmetry; destruct (Nat.leb_spec n2 j); [lia|now rewrite andb_false_r]).
+        rewrite !andb_false_r. rewrite Hin by assumption.
+        destruct (Nat.ltb_spec k2 kk) as [Hk|Hk]; cbn [andb].
+        * rewrite xorb_assoc. f_equal.
+          symmetry. replace kk with (k2 + (kk - k2)) at 1 by lia. rewrite xsum_app. symmetry. f_equal.
+          apply xsum_ext. intros t Ht. rewrite !get_msub by lia.
+          destruct (Nat.ltb_spec (i - 0) m2), (Nat.ltb_spec t (kk - k2)), (Nat.ltb_spec (j - 0) n2); try lia.
+          cbn [andb]. rewrite !Nat.sub_0_r. reflexivity.
+        * replace kk with k2 by lia. reflexivity.
+      + (* last rows *)
+        replace ((0 <=? i) && (i <? 0 + m2) && (0 <=? j) && (j <? 0 + n2)) with false
+          by (symmetry; destruct (Nat.ltb_spec i (0 + m2)); [lia|now rewrite andb_false_r]).
+        rewrite andb_false_r.
+        replace ((m2 <=? i) && (i <? m2 + (m - m2)) && (0 <=? j) && (j <? 0 + n2)) with true
+          by (symmetry; rewrite !andb_true_iff, !Nat.leb_le, !Nat.ltb_lt; lia).
+        replace ((0 <=? i) && (i <? 0 + m) && (n2 <=? j) && (j <? n2 + (n - n2))) with false
+          by (symmetry; destruct (Nat.leb_spec n2 j); [lia|now rewrite andb_false_r]).
+        rewrite andb_false_r. destruct (m2 <? m) eqn:Hg; [|apply Nat.ltb_ge in Hg; lia]. cbn [andb].
+        rewrite Hout by lia. f_equal.
+        apply xsum_ext. intros t Ht. rewrite !get_msub by lia.
+        destruct (Nat.ltb_spec (i - m2) (m - m2)), (Nat.ltb_spec t kk), (Nat.ltb_spec (j - 0) n2); try lia.
+        cbn [andb]. rewrite Nat.sub_0_r. replace (m2 + (i - m2)) with i by lia. reflexivity.
+    - (* last columns *)
+      replace ((0 <=? i) && (i <? 0 + m2) && (0 <=? j) && (j <? 0 + n2)) with false
+        by (symmetry; destruct (Nat.ltb_spec j (0 + n2)); [lia|now rewrite andb_false_r]).
+      rewrite andb_false_r.
+      replace ((m2 <=? i) && (i <? m2 + (m - m2)) && (0 <=? j) && (j <? 0 + n2)) with false
+        by (symmetry; destruct (Nat.ltb_spec j (0 + n2)); [lia|now rewrite andb_false_r]).
+      rewrite andb_false_r.
+      replace ((0 <=? i) && (i <? 0 + m) && (n2 <=? j) && (j <? n2 + (n - n2))) with true
+        by (symmetry; rewrite !andb_true_iff, !Nat.leb_le, !Nat.ltb_lt; lia).
+      destruct (n2 <? n) eqn:Hg; [|apply Nat.ltb_ge in Hg; lia]. cbn [andb].
+      rewrite Hout by lia. f_equal.
+      apply xsum_ext. intros t Ht. rewrite get_msub by lia.
+      destruct (Nat.ltb_spec t kk), (Nat.ltb_spec (j - n2) (n - n2)); try lia.
+      cbn [andb]. rewrite Nat.sub_0_r. replace (n2 + (j - n2)) with j by lia. reflexivity.
+  Qed.
+End Strips.
+
+(* ------------------------------------------------------------------------------------------ *)
+(** * Canonical strips evaluate to [three_strips] *)
+Lemma strip_op_eq base E F A B s C : w_par (st_dst s) = PC ->
+  strip_op base E F A B s C =
+  dostrip base (st_op s) C (fst (fst (fst (wcoords E F (st_dst s))))) (snd (fst (fst (wcoords E F (st_dst s)))))
+          (snd (fst (wcoords E F (st_dst s)))) (snd (wcoords E F (st_dst s)))
+          (oread E F A B C (st_x s)) (oread E F A B C (st_y s)).
+Proof.
+  intros Hp. unfold strip_op, dostrip. rewrite Hp.
+  destruct (wcoords E F (st_dst s)) as [[[r0 c0] r] c]. cbn [fst snd].
+  unfold sop_run. destruct (st_op s); reflexivity.
+Qed.
+
+Definition DS base E F A B (s : strip) (C : mat) : res mat :=
+  dostrip base (st_op s) C (fst (fst (fst (wcoords E F (st_dst s))))) (snd (fst (fst (wcoords E F (st_dst s)))))
+          (snd (fst (wcoords E F (st_dst s)))) (snd (wcoords E F (st_dst s)))
+          (oread E F A B C (st_x s)) (oread E F A B C (st_y s)).
+
+Lemma run_strips_3 base E F A B s1 s2 s3 C :
+  w_par (st_dst s1) = PC -> w_par (st_dst s2) = PC -> w_par (st_dst s3) = PC ->
+  run_strips base E F A B [s1; s2; s3] C =
+  (c1 <- (if beval (assigns E F (st_pre s1)) F (st_guard s1)
+          then DS base (assigns E F (st_pre s1)) F A B s1 C else Ok C) ;;
+   c2 <- (if beval (assigns (assigns E F (st_pre s1)) F (st_pre s2)) F (st_guard s2)
+          then DS base (assigns (assigns E F (st_pre s1)) F (st_pre s2)) F A B s2 c1 else Ok c1) ;;
+   (if beval (assigns (assigns (assigns E F (st_pre s1)) F (st_pre s2)) F (st_pre s3)) F (st_guard s3)
+    then DS base (assigns (assigns (assigns E F (st_pre s1)) F (st_pre s2)) F (st_pre s3)) F A B s3 c2
+    else Ok c2)).
+Proof.
+  intros P1 P2 P3. unfold DS. cbn [run_strips].
+  set (E1 := assigns E F (st_pre s1)). set (E2 := assigns E1 F (st_pre s2)).
+  set (E3 := assigns E2 F (st_pre s3)).
+  assert (L3 : forall c, (if beval E3 F (st_guard s3)
+                          then C' <- strip_op base E3 F A B s3 c ;; Ok C' else Ok c) =
+                         (if beval E3 F (st_guard s3) then DS base E3 F A B s3 c else Ok c)).
+  { intros c. destruct (beval E3 F (st_guard s3)); [|reflexivity].
+    rewrite strip_op_eq by assumption. unfold DS. now destruct (dostrip _ _ _ _ _ _ _ _ _). }
+  unfold DS in L3.
+  destruct (beval E1 F (st_guard s1)).
+  - rewrite strip_op_eq by assumption.
+    destruct (dostrip _ _ _ _ _ _ _ _ _) as [c1|]; cbn [bind]; [|reflexivity].
+    destruct (beval E2 F (st_guard s2)).
+    + rewrite strip_op_eq by assumption.
+      destruct (dostrip _ _ _ _ _ _ _ _ _) as [c2|]; cbn [bind]; [|reflexivity]. apply L3.
+    + cbn [bind]. apply L3.
+  - cbn [bind]. destruct (beval E2 F (st_guard s2)).
+    + rewrite strip_op_eq by assumption.
+      destruct (dostrip _ _ _ _ _ _ _ _ _) as [c2|]; cbn [bind]; [|reflexivity]. apply L3.
+    + cbn [bind]. apply L3.
+Qed.
+
+Lemma result_ext (acc : bool) R C0 A Bm : wf R -> wf C0 -> wf A -> wf Bm ->
+  nc A = nr Bm -> nr C0 = nr A -> nc C0 = nc Bm -> nr R = nr A -> nc R = nc Bm ->
+  (forall i j, i < nr A -> j < nc Bm ->
+     get R i j = xorb (acc && get C0 i j) (xsum (nc A) (fun t => get A i t && get Bm t j))) ->
+  R = if acc then madd C0 (mmul A Bm) else mmul A Bm.
+Proof.
+  intros HR HC HA HB E1 E2 E3 E4 E5 Hg.
+  destruct acc.
+  - apply mat_ext; [exact HR|apply wf_madd; auto using wf_mmul|cbn [nr madd]; lia|cbn [nc madd]; lia|].
+    intros i j Hi Hj. rewrite Hg by lia.
+    rewrite get_madd by (cbn [rows mmul]; rewrite map_length, !wf_len by auto; lia).
+    rewrite get_mmul by assumption. now rewrite E1.
+  - apply mat_ext; [exact HR|auto using wf_mmul|cbn [nr mmul]; lia|cbn [nc mmul]; lia|].
+    intros i j Hi Hj. rewrite Hg by lia. cbn [andb]. rewrite xorb_false_l.
+    rewrite get_mmul by assumption. now rewrite E1.
+Qed.
+
+Section CanonStrips.
+  Variable base : mat -> mat -> mat -> bool -> res mat.
+  Variables (E : env) (A B C C1 : mat).
+  Variables m kk n mmm kkk nnn : nat.
+  Hypothesis HnrA : nr A = m.
+  Hypothesis HncA : nc A = kk.
+  Hypothesis HnrC : nr C = m.
+  Hypothesis Hm2 : mmm * 2 <= m.
+  Hypothesis Hk2 : kkk * 2 <= kk.
+  Hypothesis Hn2 : nnn * 2 <= n.
+
+  Lemma run_strips_nonsqr k : k_sqr k = false -> nr B = kk ->
+    E Vm = m -> E Vk = kk -> E Vn = n -> E Vmmm = mmm -> E Vkkk = kkk -> E Vnnn = nnn ->
+    run_strips base E (fenv_of A B C) A B (canon_strips k) C1 =
+    (s1 <- (if nnn * 2 <? n then dostrip base (if k_acc k then SAddW else SClear) C1 0 (nnn * 2) m (n - nnn * 2) A
+                                         (msub B 0 (nnn * 2) kk (n - nnn * 2)) else Ok C1) ;;
+     s2 <- (if mmm * 2 <? m then dostrip base (if k_acc k then SAddW else SClear) s1 (mmm * 2) 0 (m - mmm * 2) (nnn * 2)
+                                         (msub A (mmm * 2) 0 (m - mmm * 2) kk) (msub B 0 0 kk (nnn * 2))
+            else Ok s1) ;;
+     (if kkk * 2 <? kk then dostrip base SAddW s2 0 0 (mmm * 2) (nnn * 2) (msub A 0 (kkk * 2) (mmm * 2) (kk - kkk * 2))
+                                    (msub B (kkk * 2) 0 (kk - kkk * 2) (nnn * 2)) else Ok s2)).
+  Proof.
+    intros Hk HnrB Em Ek En Emmm Ekkk Ennn.
+    unfold canon_strips. rewrite Hk.
+    rewrite run_strips_3 by reflexivity. unfold DS.
+    cbn [st_pre st_guard st_dst st_x st_y st_op dbl gt assigns aeval beval W oread wread wcoords
+         w_par w_r0 w_c0 w_r1 w_c1 psel fenv_of fst snd].
+    unfold eupd. cbn [var_beq].
+    rewrite Em, Ek, En, Emmm, Ekkk, Ennn, HnrA, HnrB, HnrC.
+    rewrite !Nat.sub_0_r, !Nat.min_id.
+    replace (Nat.min (m - mmm * 2) (m - mmm * 2)) with (m - mmm * 2) by lia.
+    replace (Nat.min (mmm * 2) m) with (mmm * 2) by lia.
+    replace (Nat.min (kk - kkk * 2) (kk - kkk * 2)) with (kk - kkk * 2) by lia.
+    reflexivity.
+  Qed.
+
+  Lemma run_strips_sqr k : k_sqr k = true -> kk = m -> n = m ->
+    E Vm = m -> E Vmmm = mmm ->
+    run_strips base E (fenv_of A A C) A A (canon_strips k) C1 =
+    (s1 <- (if mmm * 2 <? m then dostrip base (if k_acc k then SAddW else SClear) C1 0 (mmm * 2) m (m - mmm * 2) A
+                                         (msub A 0 (mmm * 2) m (m - mmm * 2)) else Ok C1) ;;
+     s2 <- (if mmm * 2 <? m then dostrip base (if k_acc k then SAddW else SClear) s1 (mmm * 2) 0 (m - mmm * 2) (mmm * 2)
+                                         (msub A (mmm * 2) 0 (m - mmm * 2) m) (msub A 0 0 m (mmm * 2))
+            else Ok s1) ;;
+     (if mmm * 2 <? m then dostrip base SAddW s2 0 0 (mmm * 2) (mmm * 2) (msub A 0 (mmm * 2) (mmm * 2) (m - mmm * 2))
+                                    (msub A (mmm * 2) 0 (m - mmm * 2) (mmm * 2)) else Ok s2)).
+  Proof.
+    intros Hk Hkm Hnm Em Emmm.
+    unfold canon_strips. rewrite Hk.
+    rewrite run_strips_3 by reflexivity. unfold DS.
+    cbn [st_pre st_guard st_dst st_x st_y st_op dbl gt assigns aeval beval W oread wread wcoords
+         w_par w_r0 w_c0 w_r1 w_c1 psel fenv_of fst snd].
+    unfold eupd. cbn [var_beq].
+    rewrite Em, Emmm, HnrA, HnrC.
+    rewrite !Nat.sub_0_r, !Nat.min_id.
+    replace (Nat.min (m - mmm * 2) (m - mmm * 2)) with (m - mmm * 2) by lia.
+    replace (Nat.min (mmm * 2) m) with (mmm * 2) by lia.
+    reflexivity.
+  Qed.
+End CanonStrips.
+
+(* ------------------------------------------------------------------------------------------ *)
+(** * One recursion level and the recursion *)
+Lemma eupd_same E v x : eupd E v x v = x.
+Proof. unfold eupd. now rewrite var_beq_refl. Qed.
+Lemma eupd_other E v x w : w <> v -> eupd E v x w = E w.
+Proof. unfold eupd. intros H. destruct (var_beq w v) eqn:Hb; [apply var_beq_eq in Hb; contradiction|reflexivity]. Qed.
+
+Lemma log2_half x y : 0 < x -> 2 * x <= y -> Nat.log2 x < Nat.log2 y.
+Proof.
+  intros Hx Hy. apply Nat.lt_le_trans with (Nat.log2 (2 * x)).
+  - rewrite Nat.log2_double by assumption. lia.
+  - apply Nat.log2_le_mono. assumption.
+Qed.
+
+Lemma closer_false a c : closer a c = false -> 128 <= a /\ 4 * c <= 3 * a.
+Proof. unfold closer. intros H. apply orb_false_iff in H as [H1 H2]. apply Nat.ltb_ge in H1, H2. lia. Qed.
+
+Section Level.
+  Variable base : mat -> mat -> mat -> bool -> res mat.
+  Variable dflt : nat.
+  Variable T : kind -> sched.
+  Hypothesis base_ok : base_correct base.
+  Hypothesis T_ok : forall k, check_sched (T k) = true.
+  Hypothesis T_kind : forall k, s_kind (T k) = k.
+
+  Lemma skel k :
+    s_early (T k) = canon_early k /\ s_dims (T k) = canon_dims k /\ s_closer (T k) = canon_closer /\
+    s_closer_args (T k) = canon_args k /\ s_pre (T k) = canon_pre k /\ s_loop (T k) = canon_loop /\
+    s_splits (T k) = canon_splits k /\ s_strips (T k) = canon_strips k /\
+    check_body k (s_wins (T k)) (s_tmps (T k)) (s_body (T k)) = true.
+  Proof.
+    pose proof (T_ok k) as H. unfold check_sched, check_skel in H. rewrite T_kind in H.
+    rewrite !andb_true_iff in H.
+    destruct H as [[[[[[[[[[H1 H2] H3] H4] H5] H6] H7] H8] H9] H10] H11].
+    apply deq_true in H1, H2, H3, H4, H6, H7, H8, H9, H10.
+    repeat split; auto. destruct (s_loop (T k)) as [a b]. cbn [fst snd] in *. subst. reflexivity.
+  Qed.
+
+  Definition goal_for (f : nat) : Prop :=
+    forall k w c C X Y, 63 <= c -> wf C -> wf X -> wf Y -> nc X = nr Y -> nr C = nr X -> nc C = nc Y ->
+      (k_sqr k = true -> Y = X) -> 0 < nr X -> 0 < nc X -> 0 < nc Y ->
+      Nat.log2 (Nat.max (nr X) (Nat.max (nc X) (nc Y))) < f ->
+      strassen base dflt T f k w c C X Y = Ok (acc_spec k C X Y).
+
+  Lemma copy_new_ok X : 0 < nc X -> copy_new X = Ok X.
+  Proof. intros H. unfold copy_new. destruct (Nat.eqb_spec (nc X) 0); [lia|]. now rewrite andb_false_r. Qed.
+  Lemma copy_to_ok D X : wf D -> wf X -> nr D = nr X -> nc D = nc X -> 0 < nc X -> copy_to D X = Ok X.
+  Proof.
+    intros HD HX Hr Hc Hp. unfold copy_to.
+    destruct (Nat.ltb_spec (nr D) (nr X)); [lia|]. destruct (Nat.ltb_spec (nc D) (nc X)); [lia|]. cbn [orb].
+    destruct (Nat.eqb_spec (nc X) 0); [lia|]. rewrite andb_false_r. now rewrite mcopy_into_same_dims.
+  Qed.
+  Lemma addmul_m4rm_ok C A B : wf C -> wf A -> wf B -> nc A = nr B -> nr C = nr A -> nc C = nc B ->
+    0 < nr A -> 0 < nc A -> 0 < nc B -> addmul_m4rm base C A B = Ok (madd C (mmul A B)).
+  Proof. intros. apply (sop_run_ok base base_ok SAddW); auto. Qed.
+
+  Lemma base_case_ok k win C A B : wf C -> wf A -> wf B -> nc A = nr B -> nr C = nr A -> nc C = nc B ->
+    (k_sqr k = true -> B = A) -> 0 < nr A -> 0 < nc A -> 0 < nc B ->
+    base_case base k win C A B = Ok (acc_spec k C A B).
+  Proof.
+    intros HC HA HB E1 E2 E3 Hsq P1 P2 P3.
+    assert (Hz : madd (mzero (nr A) (nc B)) (mmul A B) = mmul A B)
+      by (apply (madd_zero_l (mmul A B)); auto using wf_mmul).
+    destruct k; cbn [k_sqr] in Hsq; try (rewrite <- (Hsq eq_refl) in *; clear Hsq);
+      unfold base_case, acc_spec; cbn [k_acc]; destruct win;
+      rewrite ?copy_new_ok by lia; cbn [bind];
+      rewrite ?addmul_m4rm_ok by auto; rewrite ?base_ok by (auto using wf_mzero); cbn [bind];
+      rewrite ?Hz; try reflexivity;
+      try (apply copy_to_ok; auto using wf_mmul, wf_madd; cbn [nr nc mmul madd]; lia).
+    - replace (mzero (nr B) (nr B)) with (mzero (nr (mmul B B)) (nc (mmul B B)))
+        by (cbn [nr nc mmul]; f_equal; lia).
+      rewrite madd_zero_l by auto using wf_mmul.
+      apply copy_to_ok; auto using wf_mmul; cbn [nr nc mmul]; lia.
+  Qed.
+
+  Lemma norm_cutoff_ge c : 64 <= norm_cutoff dflt c.
+  Proof. unfold norm_cutoff. destruct (Nat.ltb_spec ((if c =? 0 then dflt else c) / 64 * 64) 64); lia. Qed.
+
+  Lemma level_nonsqr f : goal_for f -> forall k w c C A B, k_sqr k = false -> 63 <= c ->
+    wf C -> wf A -> wf B -> nc A = nr B -> nr C = nr A -> nc C = nc B ->
+    0 < nr A -> 0 < nc A -> 0 < nc B ->
+    Nat.log2 (Nat.max (nr A) (Nat.max (nc A) (nc B))) < S f ->
+    strassen base dflt T (S f) k w c C A B = Ok (acc_spec k C A B).
+  Proof.
+    intros IH k w c C A B Hk Hc HC HA HB Q1 Q2 Q3 P1 P2 P3 Hfuel.
+    destruct (skel k) as (S1 & S2 & S3 & S4 & S5 & S6 & S7 & S8 & S9).
+    cbn [strassen]. rewrite S1, S2, S3, S4, S5, S6, S7, S8.
+    set (F := fenv_of A B C).
+    set (m := nr A) in *. set (kk := nc A) in *. set (n := nc B) in *.
+    (* early return *)
+    replace (existsb (fun pf => F (fst pf) (snd pf) =? 0) (canon_early k)) with false.
+    2:{ symmetry. destruct k; try discriminate; cbn [canon_early existsb fst snd F fenv_of psel];
+        rewrite Q2, Q3; fold m n;
+        destruct (Nat.eqb_spec m 0), (Nat.eqb_spec n 0); try lia; reflexivity. }
+    set (E0 := assigns (eupd (fun _ => 0) Vcutoff c) F (canon_dims k)).
+    assert (V0 : E0 Vm = m /\ E0 Vk = kk /\ E0 Vn = n /\ E0 Vcutoff = c)
+      by (destruct k; try discriminate; repeat split; reflexivity).
+    destruct V0 as (V0m & V0k & V0n & V0c).
+    assert (Hb : is_base E0 F canon_closer (canon_args k) = closer m c || (closer kk c || (closer n c || false))).
+    { destruct k; try discriminate; unfold is_base, canon_args, canon_closer;
+        cbn [k_sqr existsb beval aeval];
+        rewrite !eupd_same, !eupd_other by discriminate; rewrite V0c, V0m, V0k, V0n; reflexivity. }
+    rewrite Hb.
+    destruct (closer m c || (closer kk c || (closer n c || false))) eqn:Hcl.
+    { apply base_case_ok; auto. rewrite Hk. discriminate. }
+    rewrite !orb_false_iff in Hcl. destruct Hcl as (Cm & Ck & Cn & _).
+    apply closer_false in Cm, Ck, Cn.
+    set (E1 := assigns E0 F (canon_pre k)).
+    assert (V1 : E1 Vm = m /\ E1 Vk = kk /\ E1 Vn = n /\ E1 Vcutoff = c /\ E1 Vmult = 64 /\
+                 E1 Vwidth = Nat.min (Nat.min m n) kk / 2).
+    { destruct k; try discriminate; unfold E1, canon_pre; cbn [k_sqr assigns aeval];
+        rewrite ?eupd_same, ?eupd_other by discriminate; rewrite ?V0m, ?V0k, ?V0n, ?V0c; repeat split; reflexivity. }
+    destruct V1 as (V1m & V1k & V1n & V1c & V1mu & V1w).
+    set (w0 := Nat.min (Nat.min m n) kk / 2) in *.
+    destruct (loop_spec F c w0 Hc (S (Nat.log2 (E1 Vwidth))) E1) as (E2 & HL & Hsame & Hinv).
+    { unfold loop_inv. rewrite V1c, V1mu, V1w. lia. }
+    { destruct (Nat.eq_dec (E1 Vwidth) 0) as [->|Hnz]; [cbn; lia|]. apply Nat.log2_spec. lia. }
+    rewrite HL.
+    destruct Hinv as (V2c & M64 & Mcase & _ & Mle).
+    set (mult := E2 Vmult) in *.
+    assert (V2 : E2 Vm = m /\ E2 Vk = kk /\ E2 Vn = n)
+      by (rewrite !Hsame by discriminate; auto).
+    destruct V2 as (V2m & V2k & V2n).
+    assert (Hmult : mult <= m /\ mult <= kk /\ mult <= n) by (unfold w0 in Mle; lia).
+    set (E3 := assigns E2 F (canon_splits k)).
+    set (mmm := split_pt m mult). set (kkk := split_pt kk mult). set (nnn := split_pt n mult).
+    assert (V3 : E3 Vmmm = mmm /\ E3 Vkkk = kkk /\ E3 Vnnn = nnn /\ E3 Vm = m /\ E3 Vk = kk /\ E3 Vn = n).
+    { destruct k; try discriminate; unfold E3, canon_splits, canon_split; cbn [k_sqr assigns aeval];
+        unfold eupd; cbn [var_beq]; rewrite ?V2m, ?V2k, ?V2n; repeat split; reflexivity. }
+    destruct V3 as (V3a & V3b & V3c & V3m & V3k & V3n).
+    assert (Hle : 2 * mmm <= m /\ 2 * kkk <= kk /\ 2 * nnn <= n)
+      by (repeat split; apply split_pt_le).
+    assert (Hpos : 64 <= mmm /\ 64 <= kkk /\ 64 <= nnn)
+      by (repeat split; apply split_pt_pos; auto; lia).
+    destruct Hle as (Lm & Lk & Ln). destruct Hpos as (Gm & Gk & Gn).
+    clearbody mmm kkk nnn.
+    (* the block phase *)
+    set (st0 := {| sC := C; sT := _ |}).
+    destruct (check_body_sound dflt (strassen base dflt T f) c k (s_wins (T k)) E3 A B C
+                (mmm + kkk + nnn) HA HB HC) with (tmps := s_tmps (T k)) (body := s_body (T k))
+      as (st1 & Hrun & W1 & R1 & C1 & Hout & Hin).
+    { intros v Hv. destruct k; try discriminate; destruct v; try discriminate; rewrite ?V3a, ?V3b, ?V3c; lia. }
+    { destruct k; try discriminate; unfold pdr, pdc; cbn [pdims k_sqr]; rewrite ?V3a, ?V3b, ?V3c; fold m kk; lia. }
+    { destruct k; try discriminate; unfold pdr, pdc; cbn [pdims k_sqr]; rewrite ?V3a, ?V3b, ?V3c; fold n; lia. }
+    { destruct k; try discriminate; unfold pdr, pdc; cbn [pdims k_sqr]; rewrite ?V3a, ?V3b, ?V3c; lia. }
+    { intros k' w' c' Cd Xm Ym HCd HXm HYm D1 D2 D3 Hsq Hc' (v1 & v2 & v3 & O1 & O2 & O3 & N1 & N2 & N3).
+      assert (Hdim : forall v, dim_ok k v = true -> 64 <= E3 v /\ 2 * E3 v <= Nat.max m (Nat.max kk n)).
+      { intros v Hv. destruct k; try discriminate; destruct v; try discriminate; rewrite ?V3a, ?V3b, ?V3c; lia. }
+      pose proof (Hdim v1 O1). pose proof (Hdim v2 O2). pose proof (Hdim v3 O3).
+      apply IH; auto; try lia.
+      - destruct Hc' as [->| ->]; [lia|]. pose proof (norm_cutoff_ge c). lia.
+      - assert (Nat.log2 (Nat.max (nr Xm) (Nat.max (nc Xm) (nc Ym))) < Nat.log2 (Nat.max m (Nat.max kk n)));
+          [|lia]. apply log2_half; lia. }
+    { exact S9. }
+    unfold st0. unfold init_tmps in Hrun. fold F in Hrun.
+    rewrite Hrun. cbn [bind].
+    assert (Pd : pdr k E3 PC = mmm /\ pdc k E3 PC = nnn /\ pdc k E3 PA = kkk /\ Bm k A B = B).
+    { destruct k; try discriminate; unfold pdr, pdc, Bm; cbn [pdims k_sqr]; auto. }
+    destruct Pd as (Pd1 & Pd2 & Pd3 & Pd4). rewrite Pd1, Pd2 in Hout, Hin. rewrite Pd3, Pd4 in Hin.
+    rewrite (run_strips_nonsqr base E3 A B C (sC st1) m kk n mmm kkk nnn); auto; try lia.
+    destruct (three_strips base base_ok (if k_acc k then SAddW else SClear) A B C (sC st1)
+                m kk n (mmm * 2) (kkk * 2) (nnn * 2)) as (R & HR & WR & RR & CR & GR); auto; try lia.
+    { intros i j Hij. apply Hout. lia. }
+    { intros i j Hi Hj. rewrite Hin by lia. replace (2 * kkk) with (kkk * 2) by lia.
+      destruct (k_acc k); reflexivity. }
+    rewrite HR. f_equal. unfold acc_spec.
+    replace (k_acc k) with (sop_acc (if k_acc k then SAddW else SClear)) by (destruct (k_acc k); reflexivity).
+    apply result_ext; auto; try lia.
+  Qed.
+
+  Lemma level_sqr f : goal_for f -> forall k w c C A, k_sqr k = true -> 63 <= c ->
+    wf C -> wf A -> nc A = nr A -> nr C = nr A -> nc C = nr A -> 0 < nr A ->
+    Nat.log2 (nr A) < S f ->
+    strassen base dflt T (S f) k w c C A A = Ok (acc_spec k C A A).
+  Proof.
+    intros IH k w c C A Hk Hc HC HA Q1 Q2 Q3 P1 Hfuel.
+    destruct (skel k) as (S1 & S2 & S3 & S4 & S5 & S6 & S7 & S8 & S9).
+    cbn [strassen]. rewrite S1, S2, S3, S4, S5, S6, S7, S8.
+    set (F := fenv_of A A C).
+    set (m := nr A) in *.
+    replace (existsb (fun pf => F (fst pf) (snd pf) =? 0) (canon_early k)) with false.
+    2:{ symmetry. destruct k; try discriminate; cbn [canon_early existsb fst snd F fenv_of psel];
+        rewrite ?Q2; destruct (Nat.eqb_spec m 0); try lia; reflexivity. }
+    set (E0 := assigns (eupd (fun _ => 0) Vcutoff c) F (canon_dims k)).
+    assert (V0 : E0 Vm = m /\ E0 Vcutoff = c)
+      by (destruct k; try discriminate; repeat split; reflexivity).
+    destruct V0 as (V0m & V0c).
+    assert (Hb : is_base E0 F canon_closer (canon_args k) = closer m c || false).
+    { destruct k; try discriminate; unfold is_base, canon_args, canon_closer;
+        cbn [k_sqr existsb beval aeval];
+        rewrite !eupd_same, !eupd_other by discriminate; rewrite V0c, V0m; reflexivity. }
+    rewrite Hb.
+    destruct (closer m c || false) eqn:Hcl.
+    { apply base_case_ok; auto; try congruence; lia. }
+    rewrite orb_false_r in Hcl. apply closer_false in Hcl as Cm.
+    set (E1 := assigns E0 F (canon_pre k)).
+    assert (V1 : E1 Vm = m /\ E1 Vcutoff = c /\ E1 Vmult = 64 /\ E1 Vwidth = m / 2).
+    { destruct k; try discriminate; unfold E1, canon_pre; cbn [k_sqr assigns aeval];
+        rewrite ?eupd_same, ?eupd_other by discriminate; rewrite ?V0m, ?V0c; repeat split; reflexivity. }
+    destruct V1 as (V1m & V1c & V1mu & V1w).
+    set (w0 := m / 2) in *.
+    destruct (loop_spec F c w0 Hc (S (Nat.log2 (E1 Vwidth))) E1) as (E2 & HL & Hsame & Hinv).
+    { unfold loop_inv. rewrite V1c, V1mu, V1w. lia. }
+    { destruct (Nat.eq_dec (E1 Vwidth) 0) as [->|Hnz]; [cbn; lia|]. apply Nat.log2_spec. lia. }
+    rewrite HL.
+    destruct Hinv as (V2c & M64 & Mcase & _ & Mle).
+    set (mult := E2 Vmult) in *.
+    assert (V2m : E2 Vm = m) by (rewrite !Hsame by discriminate; auto).
+    assert (Hmult : mult <= m) by (unfold w0 in Mle; lia).
+    set (E3 := assigns E2 F (canon_splits k)).
+    set (mmm := split_pt m mult).
+    assert (V3 : E3 Vmmm = mmm /\ E3 Vm = m).
+    { destruct k; try discriminate; unfold E3, canon_splits, canon_split; cbn [k_sqr assigns aeval];
+        unfold eupd; cbn [var_beq]; rewrite ?V2m; repeat split; reflexivity. }
+    destruct V3 as (V3a & V3m).
+    assert (Lm : 2 * mmm <= m) by apply split_pt_le.
+    assert (Gm : 64 <= mmm) by (apply split_pt_pos; auto; lia).
+    clearbody mmm.
+    set (st0 := {| sC := C; sT := _ |}).
+    destruct (check_body_sound dflt (strassen base dflt T f) c k (s_wins (T k)) E3 A A C
+                mmm HA HA HC) with (tmps := s_tmps (T k)) (body := s_body (T k))
+      as (st1 & Hrun & W1 & R1 & C1 & Hout & Hin).
+    { intros v Hv. destruct k; try discriminate; destruct v; try discriminate; rewrite ?V3a; lia. }
+    { destruct k; try discriminate; unfold pdr, pdc; cbn [pdims k_sqr]; rewrite ?V3a; fold m; lia. }
+    { destruct k; try discriminate; unfold pdr, pdc; cbn [pdims k_sqr]; lia. }
+    { destruct k; try discriminate; unfold pdr, pdc; cbn [pdims k_sqr]; rewrite ?V3a; lia. }
+    { intros k' w' c' Cd Xm Ym HCd HXm HYm D1 D2 D3 Hsq Hc' (v1 & v2 & v3 & O1 & O2 & O3 & N1 & N2 & N3).
+      assert (Hdim : forall v, dim_ok k v = true -> 64 <= E3 v /\ 2 * E3 v <= m).
+      { intros v Hv. destruct k; try discriminate; destruct v; try discriminate; rewrite ?V3a; lia. }
+      pose proof (Hdim v1 O1). pose proof (Hdim v2 O2). pose proof (Hdim v3 O3).
+      apply IH; auto; try lia.
+      - destruct Hc' as [->| ->]; [lia|]. pose proof (norm_cutoff_ge c). lia.
+      - assert (Nat.log2 (Nat.max (nr Xm) (Nat.max (nc Xm) (nc Ym))) < Nat.log2 m); [|lia].
+        apply log2_half; lia. }
+    { exact S9. }
+    unfold st0. unfold init_tmps in Hrun. fold F in Hrun.
+    rewrite Hrun. cbn [bind].
+    assert (Pd : pdr k E3 PC = mmm /\ pdc k E3 PC = mmm /\ pdc k E3 PA = mmm /\ Bm k A A = A).
+    { destruct k; try discriminate; unfold pdr, pdc, Bm; cbn [pdims k_sqr]; auto. }
+    destruct Pd as (Pd1 & Pd2 & Pd3 & Pd4). rewrite Pd1, Pd2 in Hout, Hin. rewrite Pd3, Pd4 in Hin.
+    rewrite (run_strips_sqr base E3 A C (sC st1) m m m mmm mmm mmm); auto; try lia.
+    destruct (three_strips base base_ok (if k_acc k then SAddW else SClear) A A C (sC st1)
+                m m m (mmm * 2) (mmm * 2) (mmm * 2)) as (R & HR & WR & RR & CR & GR); auto; try lia.
+    { intros i j Hij. apply Hout. lia. }
+    { intros i j Hi Hj. rewrite Hin by lia. replace (2 * mmm) with (mmm * 2) by lia.
+      destruct (k_acc k); reflexivity. }
+    rewrite HR. f_equal. unfold acc_spec.
+    replace (k_acc k) with (sop_acc (if k_acc k then SAddW else SClear)) by (destruct (k_acc k); reflexivity).
+    apply result_ext; auto; try lia.
+    intros i j Hi Hj. rewrite Q1 in *. apply GR; lia.
+  Qed.
+
+  Theorem strassen_spec : forall f, goal_for f.
+  Proof.
+    induction f as [|f IH]; intros k w c C X Y Hc HC HX HY D1 D2 D3 Hsq P1 P2 P3 Hf; [lia|].
+    destruct (k_sqr k) eqn:Hk.
+    - rewrite (Hsq eq_refl) in *. apply level_sqr; auto; try congruence.
+      rewrite !Nat.max_id in Hf. replace (nc X) with (nr X) in Hf by congruence.
+      rewrite Nat.max_id in Hf. exact Hf.
+    - apply level_nonsqr; auto.
+  Qed.
+End Level.
